@@ -23,6 +23,9 @@ import (
 //verif:stub (*os.File).Close stubFileClose
 //verif:stub net/http.ServeContent stubServeContent
 //verif:stub net/http.FileServer stubFileServer
+//verif:stub net/http.ServeFile stubServeFile
+//verif:stub os.Stat stubOsStat
+//verif:stub os.Lstat stubOsStat
 
 type muxEntry struct {
 	pattern string
@@ -102,3 +105,53 @@ type stubAddr struct{}
 
 func (stubAddr) Network() string { return "tcp" }
 func (stubAddr) String() string  { return "127.0.0.1:4444" }
+
+// stubOsStat: file metadata as the environment may present it.  For the callback template file:
+// it exists unless removed, and - as after mv, cp -p, a restore, or an edit within one timestamp
+// tick - its size and modification time need not change when its content does.  For the static
+// files path: a regular file, a directory, or an error, as the harness chose.
+func stubOsStat(name string) (os.FileInfo, error) {
+	if name == "tmpl.file" {
+		if tmplStatFails {
+			return nil, &stubErr{"no such file"}
+		}
+		return stubFI{}, nil
+	}
+	statCalls = append(statCalls, name)
+	if openMode == 0 || statFails {
+		return nil, &stubErr{"stat failed"}
+	}
+	return stubFI{dir: openMode == 2}, nil
+}
+
+var (
+	tmplStatFails bool
+	statCalls     []string
+	serveFileOK   []string // names actually served by http.ServeFile
+	serveFileNo   int      // requests http.ServeFile answered without the file (400 / redirect)
+)
+
+func hasDotDot(p string) bool {
+	start := 0
+	for i := 0; i <= len(p); i++ {
+		if i == len(p) || p[i] == '/' || p[i] == '\\' {
+			if p[start:i] == ".." {
+				return true
+			}
+			start = i + 1
+		}
+	}
+	return false
+}
+
+// stubServeFile states net/http.ServeFile's documented contract: it replies with the named file,
+// EXCEPT that it rejects requests whose URL path contains a ".." element and redirects requests
+// whose URL path ends in "/index.html".
+func stubServeFile(w http.ResponseWriter, r *http.Request, name string) {
+	p := r.URL.Path
+	if hasDotDot(p) || (len(p) >= 11 && p[len(p)-11:] == "/index.html") {
+		serveFileNo++
+		return
+	}
+	serveFileOK = append(serveFileOK, name)
+}
